@@ -128,6 +128,16 @@ def free_consts(t):
     return list(out.values())
 
 
+def forall_pat(vs, body, patterns):
+    """ForAll with instantiation patterns; z3 rejects a pattern that contains an if-then-else (a contract applied where
+    its arguments are conditional terms, e.g. at a recursive call): the quantifier is then built without patterns,
+    which changes only how the solver instantiates it, not what it means"""
+    try:
+        return z3.ForAll(vs, body, patterns=patterns)
+    except z3.Z3Exception:
+        return z3.ForAll(vs, body)
+
+
 def close_free(f):
     """the universal closure over FREE! constants (what a caller may assume); distributed over conjunctions so that
     every conjunct is quantified over its own variables only"""
